@@ -49,7 +49,7 @@ extern "C" void harness_main()
   int pos = symx_fork("pos", len);
   uint8_t ch = symx_u8("ch");
   // replacement classes: letter, digit, space, newline, punctuation used by the syntax, quote, NUL-free garbage
-  symx_assume(ch == 'x' || ch == '7' || ch == ' ' || ch == '\n' || ch == '#' || ch == ',' || ch == '.' || ch == ':' || ch == '"' || ch == '(' || ch == '\'' || ch == ';' || ch == '$' || ch == 0x80);
+  symx_assume(ch == 'x' || ch == '7' || ch == ' ' || ch == '\n' || ch == '#' || ch == ',' || ch == '.' || ch == ':' || ch == '"' || ch == '(' || ch == '\'' || ch == ';' || ch == '$' || ch == '/' || ch == '*' || ch == 0x80);
   symx_assume(ch != (uint8_t)prog[pos]);
   prog[pos] = (char)ch;
   symx_note("pos", pos);
